@@ -200,8 +200,18 @@ class CallMixin(object):
     if isinstance(callee, V) and callee.ty.k == 'ref' and (callee.ty.name + '.__call__') in self.reg.externs:
       return self.call_extern(st, cx, callee.ty.name + '.__call__', callee, args, kwargs, node)
     if isinstance(callee, V) and callee.ty.k in ('fn', 'any'):
-      return self.call_extern(st, cx, '<call>', callee, args, kwargs, node)
+      return self.call_opaque(st, cx, callee, args, kwargs, node)
     raise Unsupported('call of %r (line %s)' % (callee, getattr(node, 'lineno', '?')))
+
+  def call_opaque(self, st, cx, callee, args, kwargs, node):
+    """Calling an opaque value: TypeError unless it stands for something callable."""
+    ok = z3.Or(callee.t >= 5000000, z3.Function('is_callable', I, z3.BoolSort())(callee.t))
+    for s2, e in self.oblige_or_raise(st, cx, ok, 'TypeError', node, 'object is not callable'):
+      if isinstance(e, Exc):
+        yield s2, e
+      else:
+        for o in self.call_extern(s2, cx, '<call>', callee, args, kwargs, node):
+          yield o
 
   # ------------------------------------------------------------------ parameter binding
   def bind_params(self, st, cx, fn, args, kwargs, node):
@@ -704,6 +714,11 @@ class CallMixin(object):
       return V(BOOL, z3.And(args[0].t > snap.get('$alloc', st.alloc), args[0].t <= st.alloc))
     if name == 'dyn_is':
       return V(BOOL, self.isinstance_(st, args[0], args[1]))
+    if name in ('dq_lo', 'dq_hi'):
+      lo, hi = self.dq_bounds(st, args[0])
+      return V(INT, lo if name == 'dq_lo' else hi)
+    if name == 'dq_at':     # element at an absolute position (stable under popleft/append)
+      return self.dq_get(st, args[0], num_term(args[1], False))
     if name == 'setof':
       return self.as_lset(st, args[0])
     if name == 'card':
